@@ -4,8 +4,9 @@
      cell := <row> <sym> <par hex or -> <nargs> <arg>*
      sym  := P/<index in prims_all>/<cat>/<argcats or ->/<parametric 0 or 1>
            | V/<var id>/<cat> | K/<value>/<cat>
-     run  := <mode b B e s k l L> <locus idx> <locus cat> <nvals> <value>*
-   output: W <0 or 1> then, per run:  " | R <res> D <den or -> S <state or ->"
+     run  := <mode b B e s k l L C> <locus idx> <locus cat> <nvals> <value>*
+   output: W <0 or 1> then, per run:  " | R <res> D <den or -> S <state or -> A <asked or ->"
+     A = the argument positions the entry symbol asks for (asked_at), e.g. 0,1,3
      R = the machine (run_locus threading the state of the persistent objects),
      D = den on the unfolded tree (only when asked: the tree may be exponentially
          larger than the genome), W = wf_genome_b                               *)
@@ -107,19 +108,26 @@ let do_case (w : string list) : string =
     let l = mkloc li lc in
     let src = not (mode = "b" || mode = "B") in
     let entry = if mode = "k" || mode = "l" then l else g.best in
-    let persistent = match mode with "s" | "l" -> Some st_s | "B" -> Some st_b | "L" -> Some st_l | _ -> None in
+    (* C: the lambda object is replaced by a copy, whose interpreter is new *)
+    if mode = "C" then st_l := init_state g;
+    let persistent = match mode with "s" | "l" -> Some st_s | "B" -> Some st_b | "L" | "C" -> Some st_l | _ -> None in
     let st0 = match persistent with Some r -> !r | None -> init_state g in
     let st1 = if src then set_example st0 ex else st0 in
     let (r, st2) = run_locus src g entry st1 in
     (match persistent with Some rf -> rf := st2 | None -> ());
-    let d =
+    let (d, a) =
       if want_den then
         (match tree_of (S g.rows) g entry with
-         | Some t -> show_outcome (den (vars_of src (if src then Some ex else None)) t)
-         | None -> "NOTREE")
-      else "-" in
+         | Some t ->
+             let vars = vars_of src (if src then Some ex else None) in
+             (show_outcome (den vars t),
+              (match asked_at vars t with
+               | [] -> "none"
+               | l -> String.concat "," (List.map (fun i -> string_of_int (int_of_nat i)) l)))
+         | None -> ("NOTREE", "-"))
+      else ("-", "-") in
     let s = match persistent with Some _ -> show_state g st2 | None -> "-" in
-    Buffer.add_string buf (Printf.sprintf " | R %s D %s S %s" (show_result r) d s)
+    Buffer.add_string buf (Printf.sprintf " | R %s D %s S %s A %s" (show_result r) d s a)
   done;
   Buffer.contents buf
 
